@@ -78,7 +78,7 @@ def to_sympy(facts, term, inline_depth=3, sym=None):
 
 def return_cases(body):
     """[(guard DNF, term)] for each assignment of the return place (one per match arm / early return)"""
-    return body.local_cases(0)
+    return body.expanded_cases(0)
 
 
 def equal(e1, e2):
